@@ -328,7 +328,7 @@ def run(ctx):
         write_cases(st, picked)
         sres = ctx.harness_json("system", ["modes-replay", st, "raw", "1"], timeout=600)
         fc = sres.get("fail_count") or {}
-        if len(picked) != 5 or sum(fc.values()) != 5:
+        if (len(picked) != 5 or sum(fc.values()) != 5) and not ctx.violations and not ctx.observations:   # secondary to verdicts
             raise Infra("replay self-test: corrupted behaviours not all detected (%d written): %s" % (len(picked), fc))
         ctx.extra["modes_replay_selftest"] = fc
 
